@@ -15,6 +15,7 @@ inductive Panic
   | nilDeref   -- nil pointer dereference
   | typeAssert -- failed type assertion
   | explicit   -- explicit panic(...)
+  | stack      -- fatal error: stack overflow (unbounded recursion; the runtime's `throw`, not recoverable)
 deriving Repr, DecidableEq, Inhabited
 
 inductive Res (α : Type) | ok (a : α) | panic (p : Panic)
@@ -38,4 +39,4 @@ def goSlice (s : Bytes) (lo hi : Int) : Res Bytes :=
   else .panic .slice
 
 def panicName : Panic → String
-  | .slice => "slice" | .index => "index" | .nilDeref => "nil" | .typeAssert => "assert" | .explicit => "explicit"
+  | .slice => "slice" | .index => "index" | .nilDeref => "nil" | .typeAssert => "assert" | .explicit => "explicit" | .stack => "stack"
